@@ -184,3 +184,20 @@ claim("C05", "validate-before-write must-pass-through (each validation individua
       "primitive is dominated by each of its payload validations; every SystemService function writing substates is classified (validated or "
       "engine-constructed with a reason); object/KV-store creation is behind validate_new_object / schema validation with the entity type "
       "derived from the blueprint; the kernel's ownership/reference rejections are live and doomed. The global database invariants themselves are not decided.")
+
+claim("C16", "writer/reader layout agreement: named-constant and range-kind agreement, concat order, split constant vs array type",
+      "Decides: the hash prefix is written and stripped at the same named constant; the hash comes first and the plain bytes follow unchanged; "
+      "each *_to_* mapper uses the prefixer exactly where its *_from_* twin uses the stripper; the sorted key puts the fixed-size prefix first and "
+      "the reader splits at the array length of SortedKey.0's type. Injectivity and order preservation as equalities are not decided.")
+
+claim("C20", "table agreement extracted from MIR switches (variant<->byte), constant agreement with static folding, must-pass-through of prefix/end checks",
+      "Decides: for ValueKind and both custom value-kind enums the as_u8 and from_u8 tables are mutually inverse and injective, basic ids below "
+      "and custom ids at/above CUSTOM_VALUE_KIND_START with the custom range delegated behind an explicit >= test; the encoder's size limit equals "
+      "the decoder's 4x7-bit bound and trailing-zero groups are rejected; decode_payload passes the prefix check, decode and check_end; string "
+      "decoding uses checked UTF-8; no unchecked access on decode paths. Round-trip equality and uniqueness as value facts are not decided.")
+
+claim("C21", "bounds must-pass-through + allocation-cap dataflow rule + who-may-read table + audited panic surface",
+      "Decides: every access to VecDecoder.input in read_byte/peek_byte/read_slice_from_payload is dominated by require_remaining(n)?, which "
+      "rejects underflow; every with_capacity/reserve in a Decode impl or the Value decoder is constant, min(len,K<=4096)-shaped or validated by "
+      "read_slice(len)?; traversers read input only through decoder primitives; the residual panic-capable constructs of sbor::decoder match an "
+      "audited multiset. Depth-accounting agreement between decoder, traverser and encoder is not decided.", level="other")
